@@ -19,6 +19,8 @@ SIG_RAW = 'C15:scbuiltin_raw_selector'
 # operator tables: name -> Coq term of the numeric operator
 
 PY1 = {'neg': 'nneg', 'abs': 'nabs'}
+CHAN_DEFAULTS = {'clip': [Fraction(0), Fraction(1)], 'fold': [Fraction(0), Fraction(1)], 'wrap': [Fraction(0), Fraction(1)],
+                 'blend': [None, Fraction(1, 2)]}      # ChannelList.clip(lo=0.0, hi=1.0) ..., blend(other, frac=0.5)
 DEFAULT2 = {'round': 1, 'roundup': 1, 'trunc': 1, 'max': 0}     # bi.round(x, quant=1) / .round(other=1) / .max(other=0)
 PY2 = {'pow': 'npow', 'lshift': 'nshl', 'rshift': 'nshr', 'and_': 'nbitand', 'or_': 'nbitor',
        'add': 'nadd', 'sub': 'nsub', 'mul': 'nmul', 'truediv': 'ntruediv', 'floordiv': 'nfloordiv',
@@ -94,6 +96,19 @@ Definition code (c : list prim * callargs * expr * expr * den) : nat :=
   else if agrees (ev true x) i then 4%nat
   else if agrees (ev false x) i then 5%nat
   else 2%nat.
+(* cases observed through next(inval): ifn = (c, k) of the Pfunc primitives, ins = the inputs *)
+Definition ienv_of (ifn : list (num * num)) (ins : list num) : nat -> nat -> num :=
+  fun id idx => match nth_error ifn id, nth_error ins idx with
+                | Some (c, k), Some v => nadd c (nmul k v)
+                | _, _ => NErr
+                end.
+Definition icode (c : list prim * callargs * list (num * num) * list num * expr * den) : nat :=
+  let '(ps, ca, ifn, ins, y, i) := c in
+  let m := match observe (ienv_of ifn ins) (length ins) (build y) with
+           | SFin l => DStr (map (eval_f (env_of ps ca) true FUEL) l)
+           | SConst _ => DErr EFuel
+           end in
+  if den_eqb (den_norm m) i then 0%nat else 2%nat.
 Definition vden (x : v) : den :=
   (fix go (x : v) : den := match x with N n => DNum n | L k l => DSeq k (map go l) | VErr e => DErr e end) x.
 Definition ucode (c : v * den) : nat := if den_eqb (den_norm (vden (fst c))) (snd c) then 0%nat else 2%nat.
@@ -246,7 +261,7 @@ class Gen:
 
 
 def leaf_kind(d):
-    return {'num': 'num', 'fn': 'fn', 'str': 'str', 'pstr': 'str', 'pat': 'pat', 'operand': 'operand'}.get(d[0]) or 'seq' + d[1]
+    return {'num': 'num', 'fn': 'fn', 'str': 'str', 'pstr': 'str', 'pat': 'pat', 'pfunc': 'pat', 'operand': 'operand'}.get(d[0]) or 'seq' + d[1]
 
 
 def has_tag(e, tag):
@@ -276,6 +291,8 @@ def coq_leaf(d):
         return '(OStr [%s])' % '; '.join(cnum(i) for i in d[1])
     if t == 'pat':
         return '(OPat [%s])' % '; '.join(cnum(i) for i in d[1])
+    if t == 'pfunc':
+        return '(OPfunc %d)' % d[1]
     if t == 'pstr':
         return '(OStr [%s])' % '; '.join(cnum(i) for i in d[1])      # a stream object yielding these values
     if t == 'seq':
@@ -317,6 +334,12 @@ def coq_expr(e, fixed=True):
         return '(EBin %s %s %s)' % (coq_sel(e[1], 2, e[2], fixed), coq_expr(e[3], fixed), coq_expr(e[4], fixed))
     if t == 'bin1':      # second argument defaulted by the wrapper (scbuiltin default_b / method default / __round__, __trunc__)
         return '(EBin %s %s (ELeaf (ONum (I %s))))' % (coq_sel(e[1], 2, e[2], fixed), coq_expr(e[3], fixed), cz(DEFAULT2[e[1]]))
+    if t == 'nar' and e[2] == 'meth' and top_kind(e[3]) == 'seqC':
+        # ChannelList overrides clip/fold/wrap/blend: _multichannel_perform (flop over channels and arguments),
+        # defaults lo=0.0, hi=1.0 / frac=0.5 filled in
+        args = list(e[4]) + [['leaf', ['num'] + nd(v)] for v in CHAN_DEFAULTS[e[1]][len(e[4]):]]
+        return '(ECNar %s %s [%s])' % (coq_sel(e[1], 3, e[2], fixed), coq_expr(e[3], fixed),
+                                       '; '.join(coq_expr(i, fixed) for i in args))
     if t == 'nar':
         return '(ENar %s %s [%s])' % (coq_sel(e[1], 3, e[2], fixed), coq_expr(e[3], fixed),
                                       '; '.join(coq_expr(i, fixed) for i in e[4]))
@@ -362,6 +385,9 @@ def txt_leaf(d, g):
         return 'routine_over([%s])' % ', '.join(pynum(nval(i)) for i in d[1])
     if t == 'pat':
         return 'Pseq([%s])' % ', '.join(pynum(nval(i)) for i in d[1])
+    if t == 'pfunc':
+        cc, k = g['ifns'][d[1]]
+        return 'Pfunc(lambda inval: %s + %s*inval)' % (pynum(nval(cc)), pynum(nval(k)))
     if t == 'pstr':
         return 'stream(Pseq([%s]))' % ', '.join(pynum(nval(i)) for i in d[1])
     if t == 'seq':
@@ -415,6 +441,8 @@ def call_text(c):
 
 
 def case_text(c):
+    if c.get('ins') is not None:
+        return '%s   observed with next(v) for v in [%s]' % (txt_expr(c['e'], c), ', '.join(pynum(nval(v)) for v in c['ins']))
     return '%s   functions called with (%s)' % (txt_expr(c['e'], c), call_text(c))
 
 
@@ -804,6 +832,69 @@ def gen_cases(ctx, n_per):
             finish(g, e, 'falsy:' + ka + ',' + kb)
     finally:
         NUMMODE['mode'] = None
+
+    # 8. ChannelList METHOD forms clip / fold / wrap / blend (ChannelList overrides them: flop over the channels AND
+    #    every argument, so the result has as many channels as the longest of them), number channels,
+    #    arguments numbers or lists of numbers of every length 0..4, defaulted arguments
+    for name in tn:
+        for _ in range(n_per * 5):
+            g = Gen(rng)
+            recv = ['leaf', g.seq('C', 1)]
+            if rng.random() < 0.2 and recv[1][2]:
+                recv = binop_expr(g, 'add', True, recv, ['leaf', g.num()])
+            nargs = rng.choice([2, 2, 2, 1, 0]) if name != 'blend' else rng.choice([2, 2, 1])
+            args = []
+            for _i in range(nargs):
+                r = rng.random()
+                if r < 0.35:
+                    args.append(['leaf', g.num()])
+                elif r < 0.95:
+                    args.append(['leaf', g.seq(rng.choice('LLC'), 1)])
+                else:
+                    args.append(['leaf', g.seq('T', 1)])         # a tuple is ONE item for flop: reaches the kernel whole
+            finish(g, ['nar', name, 'meth', recv, args], 'chanmethod:%s:%d' % (name, nargs))
+
+    # 9. inval threading: operands whose value depends on the input passed to next() (Pfunc), composites
+    #    streamed directly and EMBEDDED, observed with a different input for every next()
+    for _ in range(n_per * 30):
+        g = Gen(rng)
+        g.ifns = []
+        g.ins = [rnd_num(rng) for _ in range(rng.randint(3, 7))]
+
+        def pf():
+            g.ifns.append((rnd_num(rng), rng.choice([1, 1, 2, -1, Fraction(1, 2)])))
+            return ['leaf', ['pfunc', len(g.ifns) - 1]]
+
+        def other():
+            k9 = rng.choice(['num', 'pat', 'str', 'pstr', 'pfunc', 'pfunc'])
+            if k9 == 'pfunc':
+                return pf()
+            if k9 == 'num':
+                return ['leaf', g.num()]
+            return ['leaf', [k9, g.nums(lo=2, hi=8)]]
+        ar9 = rng.choice([1, 2, 2, 3])
+        first = pf() if rng.random() < 0.7 else ['leaf', [rng.choice(['pat', 'str']), g.nums(lo=2, hi=8)]]
+        if ar9 == 1:
+            first = pf()
+            name, py = rng.choice(exact1)
+            c = ['un', name, um(name, py), first]
+        elif ar9 == 2:
+            name, py = rng.choice([x for x in exact2 if x[0] not in BIG6])
+            b = other()
+            if first[1][0] != 'pfunc' and b[1][0] != 'pfunc':
+                b = pf()
+            ea, eb = (first, b) if (rng.random() < 0.6 or b[1][0] == 'num') else (b, first)
+            c = binop_expr(g, name, py, ea, eb)
+        else:
+            name = rng.choice(tn)
+            args = [other(), other()]
+            if first[1][0] != 'pfunc' and not any(a[1][0] == 'pfunc' for a in args):
+                args[0] = pf()
+            c = ['nar', name, 'bi' if name in NO_METHOD else rng.choice(['bi', 'meth']), first, args]
+        if rng.random() < 0.65:
+            c = enclose(g, c, True)
+        cases.append({'k': 'expr', 'pos': [nd(g.x)], 'kw': [], 'fns': [], 'ifns': [[nd(cc), nd(k)] for cc, k in g.ifns],
+                      'ins': [nd(v) for v in g.ins], 'e': c, 'shape': 'inval:%d' % ar9, 'twice': False})
     return cases
 
 
@@ -895,8 +986,14 @@ def run_codes(ctx, name, items, body, shard):
 
 def model_value(ctx, c, fixed):
     """print the model's evaluation of one case (diagnosis only)"""
-    txt = HEADER + 'Eval vm_compute in den_norm (eval_f (env_of %s %s) %s FUEL (build %s)).\n' % (
-        coq_prims(c), coq_callargs(c), 'true' if fixed else 'false', coq_expr(c['e'], fixed))
+    if c.get('ins') is not None:
+        txt = HEADER + ('Eval vm_compute in match observe (ienv_of [%s] [%s]) %d (build %s) with SFin l => '
+                        'den_norm (DStr (map (eval_f (env_of %s %s) true FUEL) l)) | SConst _ => DErr EFuel end.\n') % (
+            '; '.join('(%s, %s)' % (cnum(cc), cnum(k)) for cc, k in c['ifns']), '; '.join(cnum(v) for v in c['ins']),
+            len(c['ins']), coq_expr(c['e'], True), coq_prims(c), coq_callargs(c))
+    else:
+        txt = HEADER + 'Eval vm_compute in den_norm (eval_f (env_of %s %s) %s FUEL (build %s)).\n' % (
+            coq_prims(c), coq_callargs(c), 'true' if fixed else 'false', coq_expr(c['e'], fixed))
     rc, out = ctx.coq('lift_diag', txt, timeout=120)
     return ' '.join(out.split())[-700:] if rc == 0 else 'coq error: ' + out[-300:]
 
@@ -913,9 +1010,22 @@ def correspond_lift(ctx):
     out = ctx.impl('c15_lift_run', {'cases': cases + ucases}, timeout=900)['out']
     eout, uout = out[:len(cases)], out[len(cases):]
 
-    items = ['(%s, %s, %s, %s, %s)' % (coq_prims(k), coq_callargs(k), coq_expr(k['e'], False), coq_expr(k['e'], True),
-                                       coq_den(o)) for k, o in zip(cases, eout)]
-    codes, errs = run_codes(ctx, 'lift', items, 'Eval vm_compute in map code cases.', shard=150)
+    plain = [i for i, k in enumerate(cases) if k.get('ins') is None]
+    withins = [i for i, k in enumerate(cases) if k.get('ins') is not None]
+    items = ['(%s, %s, %s, %s, %s)' % (coq_prims(cases[i]), coq_callargs(cases[i]), coq_expr(cases[i]['e'], False),
+                                       coq_expr(cases[i]['e'], True), coq_den(eout[i])) for i in plain]
+    pcodes, errs = run_codes(ctx, 'lift', items, 'Eval vm_compute in map code cases.', shard=150)
+    iitems = ['(%s, %s, ([%s] : list (num * num)), ([%s] : list num), %s, %s)' % (
+        coq_prims(cases[i]), coq_callargs(cases[i]),
+        '; '.join('(%s, %s)' % (cnum(cc), cnum(k)) for cc, k in cases[i]['ifns']),
+        '; '.join(cnum(v) for v in cases[i]['ins']), coq_expr(cases[i]['e'], True), coq_den(eout[i])) for i in withins]
+    icodes, ierrs = run_codes(ctx, 'linval', iitems, 'Eval vm_compute in map icode cases.', shard=150)
+    errs = errs + ierrs
+    codes = [None] * len(cases)
+    for i, cd in zip(plain, pcodes):
+        codes[i] = cd
+    for i, cd in zip(withins, icodes):
+        codes[i] = cd
     uitems = ['(%s, %s)' % (coq_util(k), coq_den(o)) for k, o in zip(ucases, uout)]
     ucodes, uerrs = run_codes(ctx, 'lutil', uitems, 'Eval vm_compute in map ucode cases.', shard=300)
 
